@@ -36,11 +36,18 @@ Rules == {
   [name |-> "coinbase-script-too-short",         stage |-> "sanity",  edge |-> TRUE],   \* 1 / 2 bytes
   [name |-> "coinbase-script-too-long",          stage |-> "sanity",  edge |-> TRUE],   \* 101 / 100 bytes
   [name |-> "too-many-sigops",                   stage |-> "sanity",  edge |-> TRUE],   \* 80004 / 80000 cost
+  [name |-> "non-coinbase-null-input",           stage |-> "sanity",  edge |-> FALSE],
+  [name |-> "tx-total-output-above-max-money",   stage |-> "sanity",  edge |-> FALSE],  \* each output within range, the sum is not
+  [name |-> "block-too-big",                     stage |-> "sanity",  edge |-> TRUE],   \* 1,000,001 / 1,000,000 bytes without witness data
   [name |-> "time-not-after-median-time-past",   stage |-> "context", edge |-> TRUE],   \* MTP / MTP + 1
   [name |-> "unexpected-difficulty",             stage |-> "context", edge |-> FALSE],
+  [name |-> "block-version-too-old",             stage |-> "context", edge |-> TRUE],   \* BIP34/66/65 in force at the height: version 1/2/3 refused, 2/3/4 admitted
   [name |-> "unfinalized-transaction",           stage |-> "bcontext", edge |-> TRUE],   \* lock time = height / height - 1
   [name |-> "unexpected-witness",                stage |-> "bcontext", edge |-> FALSE],
   [name |-> "bad-witness-commitment",            stage |-> "bcontext", edge |-> FALSE],
+  [name |-> "bad-coinbase-height",               stage |-> "bcontext", edge |-> FALSE],  \* BIP34 (valid blocks carry the exact height)
+  [name |-> "coinbase-witness-nonce-bad",        stage |-> "bcontext", edge |-> FALSE],  \* reserved value of 31 bytes
+  [name |-> "block-weight-too-big",              stage |-> "bcontext", edge |-> TRUE],   \* weight 4,000,001 / 4,000,000 with witness data
   [name |-> "coinbase-pays-too-much",            stage |-> "connect", edge |-> FALSE],  \* subsidy + fees + 1 (valid blocks claim subsidy + fees exactly)
   [name |-> "missing-input",                     stage |-> "connect", edge |-> FALSE],
   [name |-> "double-spend-in-block",             stage |-> "connect", edge |-> FALSE],
@@ -49,7 +56,19 @@ Rules == {
   [name |-> "script-evaluates-false",            stage |-> "connect", edge |-> FALSE],
   [name |-> "bip30-overwrites-unspent-coinbase", stage |-> "connect", edge |-> FALSE],  \* valid blocks re-create only fully spent coinbases
   [name |-> "sequence-lock-not-met",             stage |-> "connect", edge |-> TRUE],   \* BIP68: needs 2 / 1 confirmations, has 1
-  [name |-> "sequence-time-lock-not-met",        stage |-> "connect", edge |-> TRUE]    \* BIP68 time lock: d/512 + 1 / d/512 units, d = MTP(parent) - MTP(before the input's block)
+  [name |-> "sequence-time-lock-not-met",        stage |-> "connect", edge |-> TRUE],   \* BIP68 time lock: d/512 + 1 / d/512 units, d = MTP(parent) - MTP(before the input's block)
+  [name |-> "too-many-sigops-p2sh",              stage |-> "connect", edge |-> TRUE],   \* 79960 legacy + 44 redeem-script cost / 79956 + 44
+  \* which script-verification behaviour is in force at a height: the invalid
+  \* spend is refused where the behaviour is in force; the edge is the spend
+  \* that is valid (requirement met exactly, or the behaviour not in force)
+  [name |-> "p2sh-redeem-script-false",          stage |-> "connect", edge |-> FALSE],  \* BIP16
+  [name |-> "non-der-signature",                 stage |-> "connect", edge |-> TRUE],   \* BIP66 in force / not in force
+  [name |-> "cltv-not-met",                      stage |-> "connect", edge |-> TRUE],   \* BIP65: lock time 1 / 2 against a required 2; any when not in force
+  [name |-> "csv-not-met",                       stage |-> "connect", edge |-> TRUE],   \* BIP112: sequence 1 / 2 against a required 2
+  [name |-> "multisig-dummy-not-null",           stage |-> "connect", edge |-> TRUE],   \* BIP147: dummy 0x01 / empty
+  [name |-> "witness-script-false",              stage |-> "connect", edge |-> FALSE],  \* BIP141
+  [name |-> "witness-program-mismatch",          stage |-> "connect", edge |-> TRUE],   \* BIP141: wrong / right witness script for the committed hash
+  [name |-> "taproot-bad-signature",             stage |-> "connect", edge |-> FALSE]   \* BIP341 key path
 }
 
 Stages == {"sanity", "context", "bcontext", "connect"}
